@@ -298,6 +298,7 @@ def astuple(
                             (
                                 astuple(
                                     kk,
+                                    filter=filter,
                                     tuple_factory=tuple_factory,
                                     retain_collection_types=retain,
                                 )
@@ -307,6 +308,7 @@ def astuple(
                             (
                                 astuple(
                                     vv,
+                                    filter=filter,
                                     tuple_factory=tuple_factory,
                                     retain_collection_types=retain,
                                 )
